@@ -358,6 +358,44 @@ func c17EditRegions(r *an.Run) {
 	if !r.Check(g != nil, short(f)+"|comment-lists", f.Pos(), "the region loop asks one function for the leading and trailing comments of an element") {
 		return
 	}
+	// (b2) which half of that answer is consulted for which neighbour: the gap in front of element i is given up
+	// (Pos = own Pos) when the PREVIOUS element has TRAILING comments, the gap behind it when the NEXT element has
+	// LEADING comments — the second result for i-1, the first for i+1
+	nHalf := 0
+	for _, c := range an.Calls(f) {
+		call, ok := c.(*ssa.Call)
+		if !ok || an.StaticCallee(c) != g || !fillLoop.Blocks[c.Block()] || len(call.Call.Args) == 0 {
+			continue
+		}
+		off, known := offsetOf(call.Call.Args[len(call.Call.Args)-1])
+		if !known || off == 0 {
+			continue
+		}
+		for _, ex := range []int{0, 1} {
+			for _, e := range an.ExtractOf(call, ex) {
+				used := false
+				if refs := e.Referrers(); refs != nil {
+					for _, u := range *refs {
+						if _, isDbg := u.(*ssa.DebugRef); !isDbg {
+							used = true
+						}
+					}
+				}
+				if !used {
+					continue
+				}
+				nHalf++
+				want := 1 // previous element: its trailing comments
+				what := "the trailing comments of the previous element"
+				if off > 0 {
+					want, what = 0, "the leading comments of the next element"
+				}
+				r.Check(ex == want, short(f)+"|neighbour-comments|"+map[bool]string{true: "next", false: "previous"}[off > 0], call.Pos(), "the gap towards a neighbour is given up on account of %s (result %d of %s), found result %d: with the other half the region swallows the neighbour's comment", what, want, short(g), ex)
+			}
+		}
+	}
+	r.Count("neighbour comment guards", nHalf)
+	r.Min("neighbour comment guards", 2)
 	var loop *an.Loop
 	for _, l := range an.Loops(g) {
 		if loop == nil || len(l.Blocks) > len(loop.Blocks) {
